@@ -205,6 +205,11 @@ def run_incarnation(
         except BudgetExceeded as e:  # the liveness budget of this incarnation ran out
             out.error = e
             out.error_site = "BudgetExceeded"
+        except KeyboardInterrupt as e:
+            if not getattr(e, "_emusim_injected", False):
+                raise
+            out.error = e  # the scheduler's Ctrl-C, after the SUT has unwound
+            out.error_site = "KeyboardInterrupt"
         except Exception as e:  # the SUT (or pulser underneath it) raised
             if raised_by_harness(e):
                 raise HarnessError(f"exception raised inside the harness during a SUT call: {e!r}") from e
